@@ -215,6 +215,8 @@ class Program:
             try:
                 pr = inline.expand_new_properties({n: m.tree for n, m in self.modules.items()})
                 pr += inline.expand_new_expression_methods({n: m.tree for n, m in self.modules.items()})
+                if pr:
+                    pr += inline.hex_digest_spellings({n: m.tree for n, m in self.modules.items()})
             except Exception as e:
                 pr = []
                 self.expansion_errors.append(f"<program>: {type(e).__name__}: {e}")
